@@ -43,6 +43,7 @@ ids('C09 C10', {601: 'ExactSizeIterator::len() wrong', 602: 'size_hint() wrong',
                 608: 'cloned iterator diverges', 609: 'count() wrong', 610: 'write through iter_mut/values_mut lost',
                 611: 'yielded pair is not a stored association'})
 ids('C09 C10', {621: 'nth() differs from stepping', 622: 'last() differs from stepping', 623: 'count() differs from stepping', 624: 'fold()/for_each() differ from stepping', 625: 'iterator state after a provided method differs from stepping'})
+ids('C10', {302: 'an element handed out by a consuming iterator was leaked or destroyed twice', 901: 'double drop of an element a consuming iterator handed out'})
 ids('C10', {612: 'container not empty after drain', 613: 'container not reusable after drain'})
 ids('C02 C10', {614: 'elements not released exactly once when a consuming iterator is dropped / excess release when forgotten'})
 ids('C07', {1502: 'clone / subset relations of a set with itself', 601: 'iterator len', 604: 'iteration count', 811: 'contents differ from the model', 206: 'capacity'})
@@ -111,6 +112,7 @@ fam('c01_lookup c01_retain c01_clear c01_drain_all', 'g_map', [0, 1, 2, 3], [4, 
 fam('c09_iter c09_keys c09_values c09_iter_mut c09_values_mut c09_set_iter', 'g_iter', [0, 1, 2, 3], [4, 5], dprofiles=('rel', 'dbg'))
 fam('c09_defaults', 'g_iter', [0, 2], [])
 fam('c09_provided c09_set_provided c10_set_provided', 'g_iter', [1, 2, 3], [4])
+fam('c10_drain_methods c10_set_drain_methods', 'g_iter', [1, 2, 3], [4, 5])
 # second parameter: 0 into_iter, 1 into_keys, 2 into_values, 3 drain
 fam('c10_provided', 'g_iter', [(1, 0), (2, 0), (3, 0), (1, 1), (2, 1), (1, 2), (2, 2)], [(1, 3), (2, 3), (3, 1), (3, 2), (4, 0)], unwind=lambda c: c[0] + 2)
 fam('c10_into_iter c10_into_keys c10_into_values c10_set_into_iter c10_drain c10_set_drain', 'g_iter', [0, 1, 2, 3], [4, 5], dprofiles=('rel', 'dbg'))
@@ -142,6 +144,7 @@ fam('c04_insert c04_remove c04_set_ops', 'g_panic', [0, 1, 2, 3], [4, 5], dprofi
 fam('c04_clone c04_clear c04_retain', 'g_panic', [1, 2, 3], [4, 5, 6], dprofiles=('rel', 'dbg'))   # N=0: no user callback is made
 fam('c04_drops', 'g_panic', [1, 2, 3], [4, 5], dprofiles=('rel', 'dbg'))
 fam('c04_lookup c04_entry c04_disjoint', 'g_panic', [1, 2, 3], [4, 5], dprofiles=('rel', 'dbg'))
+fam('c04_from_array', 'g_panic', [2, 3], [4, 5])
 fam('c04_from_iter', 'g_panic', [(0, 2), (1, 2), (2, 3), (3, 4)], [(4, 5), (3, 5)])
 fam('c04_set_extend', 'g_panic', [(1, 2), (2, 3), (3, 3)], [(4, 4)])
 fam('c04_set_algebra', 'g_panic', [(1, 1), (2, 2), (3, 2)], [(3, 3), (4, 2)])
@@ -162,6 +165,7 @@ fam('c18_disjoint_unchecked', 'g_misc', [(2, 0), (1, 1), (2, 2), (3, 2), (2, 3),
 fam('c17_insert', 'g_liar', [0, 1, 2, 3], [4], profiles=('rel', 'dbg'))
 fam('c17_remove c17_lookup', 'g_liar', [1, 2, 3], [4], profiles=('rel', 'dbg'))
 fam('c17_disjoint', 'g_liar', [(1, 2), (2, 2), (3, 2), (2, 3), (3, 3)], [(4, 3), (4, 4)], profiles=('rel', 'dbg'))
+fam('c17_two', 'g_liar', [], [1, 2, 3], dprofiles=('rel', 'dbg'))
 fam('c17_set', 'g_liar', [(1, 1), (2, 1), (1, 2)], [(2, 2), (3, 2)])   # (2,2): 8 min
 
 fam('c06_refs c06_refs_set', 'g_map', [1, 2, 3], [4])
@@ -170,6 +174,7 @@ fam('c07u_ops', 'g_set', [4, 6, 8], [10, 12])
 fam('c01_hist', 'g_map', [(2, 2)], [(2, 3), (3, 3), (3, 4)], unwind=lambda c: c[0] + 2)
 
 # second/third parameter W selects the rendering ({} / {:?} / {:#?}) or the iterator kind: one per obligation
+fam('c19_nested', 'g_fmt', [(1, 1), (1, 2)], [(2, 1), (2, 2)], lto=True, unwind=lambda c: 8)   # N=2: 4-5 min each
 fam('c06_fmt_specs', 'g_fmt', [(1, w) for w in range(5)], [(2, w) for w in range(5)], lto=True, unwind=lambda c: 8)
 fam('c19_map c19_set', 'g_fmt', [(n, w) for n in (0, 1, 2) for w in (0, 1, 2)] + [(1, 3), (2, 3)], [(3, w) for w in (0, 1, 2, 3)], lto=True, unwind=lambda c: 8)   # w: 0 {} 1 {:?} 2 {:#?} 3 {:#}
 fam('c19_map_iters', 'g_fmt', [(1, w) for w in range(9)], [(n, w) for n in (2, 3) for w in range(9)], lto=True, unwind=lambda c: 8)
@@ -180,9 +185,9 @@ fam('c20_bincode_map c20_bincode_set', 'g_serde', [(0, 0), (1, 1), (2, 2), (3, 3
 # --------------------------------------------------------------------------------------- properties
 PROPS = {
     'C20': dict(fams='c20_bincode_map c20_bincode_set'),
-    'C19': dict(fams='c19_map c19_set c19_map_iters c19_set_iters'),
+    'C19': dict(fams='c19_map c19_set c19_nested c19_map_iters c19_set_iters'),
     'C02': dict(fams='c01_insert c01_insert_kv c01_checked_insert c01_lookup c01_remove c01_remove_entry c01_retain c01_clear c01_drain_all '
-                     'c10_into_iter c10_into_keys c10_into_values c10_set_into_iter c10_drain c10_set_drain '
+                     'c10_into_iter c10_into_keys c10_into_values c10_set_into_iter c10_drain c10_set_drain c10_provided c10_set_provided c10_drain_methods c10_set_drain_methods '
                      'c07_insert c07_replace c07_remove c07_take c07_retain c07_clear c07_drain c07_extend c11_or c11_variants c11_key_and_modify c16_from_iter'),
     'C12': dict(fams='c01_insert c01_insert_kv c01_checked_insert c01_lookup c01_remove_entry c03_replace_full c07_insert c07_replace c07_lookup c07_take '
                      'c09_iter c09_set_iter c10_into_iter c10_set_into_iter c11_or c11_variants c11_key_and_modify c16_from_iter c16_from_array'),
@@ -190,14 +195,14 @@ PROPS = {
                      'c07_insert c07_remove c07_lookup c08_union c08_intersection c08_difference c08_symdiff c08_sub c14_map c14_set c15_clone c16_from_iter c13_disjoint c06_fmt_specs c19_map c19_set c19_map_iters',
                 fams_std='c06_fmt_specs c19_map c19_set c06_refs c01_insert c01_remove c15_clone c14_map c08_sub c10_drain',
                 gate='nostd_build'),
-    'C17': dict(fams='c17_insert c17_remove c17_lookup c17_disjoint c17_set'),
+    'C17': dict(fams='c17_insert c17_remove c17_lookup c17_disjoint c17_set c17_two'),
     'C13': dict(fams='c13_disjoint c13_disjoint_tok'),
     'C15': dict(fams='c15_clone c15_set_clone c15_clone_nodrop'),
     'C16': dict(fams='c16_from_iter c16_from_array c16_set_from c16_set_from_array c07_extend c07_extend_ref'),
     'C18': dict(fams='c18_insert_unchecked c18_disjoint_unchecked'),
     'C11': dict(fams='c11_or c11_variants c11_key_and_modify '
                      'c03_or_insert c03_or_insert_with c03_or_insert_with_key c03_vacant_insert c03_or_default'),   # full map: entry insertion must panic exactly like insert
-    'C04': dict(fams=C04F1 + ' c04_lookup c04_entry c04_disjoint c04_from_iter c04_set_extend c04_set_algebra'),
+    'C04': dict(fams=C04F1 + ' c04_lookup c04_entry c04_disjoint c04_from_array c04_from_iter c04_set_extend c04_set_algebra'),
     'C05': dict(fams='c05_panics c01_insert c01_insert_kv c01_checked_insert c01_remove c01_remove_entry c01_retain c01_clear c01_drain_all c01_lookup c01_index '
                      'c07_insert c07_replace c07_remove c07_take c07_retain c10_drain '
                      'c03_insert c03_insert_kv c03_or_insert c03_or_insert_with c03_or_insert_with_key c03_vacant_insert c03_or_default c03_set_insert c03_from_iter c03_set_extend '
@@ -207,7 +212,7 @@ PROPS = {
     'C14': dict(fams='c14_map c14_set'),
     'C07': dict(fams='c07u_ops c07_insert c07_replace c07_lookup c07_remove c07_take c07_retain c07_clear c07_drain c07_extend c07_extend_ref'),
     'C09': dict(fams='c09_iter c09_keys c09_values c09_iter_mut c09_values_mut c09_set_iter c09_defaults c09_provided c09_set_provided'),
-    'C10': dict(fams='c10_into_iter c10_into_keys c10_into_values c10_set_into_iter c10_drain c10_set_drain c10_provided c10_set_provided'),
+    'C10': dict(fams='c10_into_iter c10_into_keys c10_into_values c10_set_into_iter c10_drain c10_set_drain c10_provided c10_set_provided c10_drain_methods c10_set_drain_methods'),
     'C01': dict(fams='c01_insert c01_insert_kv c01_checked_insert c01_lookup c01_index c01_remove c01_remove_entry c01_retain c01_clear c01_drain_all c01_hist c01u_ops '
                      'c03_insert c03_insert_kv c03_checked_full c03_replace_full'),   # a rejected insertion leaves exactly the previous associations
 }
